@@ -127,6 +127,11 @@ goal		:  initlex sect1 sect1end sect2 initforrule
 
 			def_rule = mkstate( -pat );
 
+			/* The default rule matches any character, newline
+			 * included, so yylineno has to be kept for it.
+			 */
+			rule_has_nl[num_rules] = true;
+
 			/* Remember the number of the default rule so we
 			 * don't generate "can't match" warnings for it.
 			 */
